@@ -7,6 +7,7 @@ import (
 	"net/netip"
 	"sort"
 	"strings"
+	"sync"
 	"time"
 
 	"github.com/AdguardTeam/AdGuardDNS/internal/agd"
@@ -29,6 +30,11 @@ var errUpstream = errors.New("c01: scripted upstream failure")
 
 // prodUpstream is the scripted upstream: a pure function of the question.
 func prodUpstream(ctx context.Context, req *dns.Msg, ri *agd.RequestInfo) (resp *dns.Msg, err error) {
+	if err = ctx.Err(); err != nil {
+		// Like the real forwarder, do not work for a request whose time is up.
+		return nil, err
+	}
+
 	switch strings.ToLower(firstLabel(req.Question[0].Name)) {
 	case labelUpFail:
 		return nil, errUpstream
@@ -41,6 +47,21 @@ func prodUpstream(ctx context.Context, req *dns.Msg, ri *agd.RequestInfo) (resp 
 	default:
 		return stack.DefaultUpstream(ctx, req, ri)
 	}
+}
+
+// prodCtxTimeout is the handle timeout of the production benches: dnssvc gives
+// every request a context with the configured HandleTimeout (and a request
+// ID), and so does prodContext.
+const prodCtxTimeout = time.Second
+
+// prodContext is what dnssvc's unexported context constructor does.
+type prodContext struct{}
+
+// New implements the [dnsserver.ContextConstructor] interface for prodContext.
+func (prodContext) New() (ctx context.Context, cancel context.CancelFunc) {
+	ctx, cancel = context.WithTimeout(context.Background(), prodCtxTimeout)
+
+	return agd.WithRequestID(ctx, agd.NewRequestID()), cancel
 }
 
 // prodForm is one EDNS shape of the production corpus.
@@ -148,6 +169,8 @@ func genProd(salt uint16) (ins []*input) {
 // every transport.
 func (e *env) prodPhase() (ok bool) {
 	r := e.r
+	began := time.Now()
+	defer func() { r.Extra("production_pipeline_seconds", time.Since(began).Seconds()) }()
 
 	protos := []struct {
 		srv   tbench.Server
@@ -196,12 +219,13 @@ func (e *env) prodPhase() (ok bool) {
 
 	metrics := &tbench.CountingMetrics{}
 	b, err := tbench.Start(tbench.Config{
-		Handlers: handlers,
-		Disposer: st.Cloner,
-		Metrics:  newProdMetrics(metrics),
-		Only:     only,
-		DNS:      tbench.StreamOptions{MaxUDPRespSize: configuredUDPMax, ReadTimeout: serverReadTimeout},
-		DoT:      tbench.StreamOptions{ReadTimeout: serverReadTimeout},
+		Handlers:       handlers,
+		RequestContext: prodContext{},
+		Disposer:       st.Cloner,
+		Metrics:        newProdMetrics(metrics),
+		Only:           only,
+		DNS:            tbench.StreamOptions{MaxUDPRespSize: configuredUDPMax, ReadTimeout: serverReadTimeout},
+		DoT:            tbench.StreamOptions{ReadTimeout: serverReadTimeout},
 	})
 	if err != nil {
 		r.Inconclusive("production pipeline: cannot start the bench: " + err.Error())
@@ -244,7 +268,15 @@ func (e *env) prodPhase() (ok bool) {
 		}
 	}
 
+	// The long-lived connections run next to the corpus.
+	longDone := make(chan struct{})
+	go func() {
+		defer close(longDone)
+		e4.prodLongLived()
+	}()
+
 	e4.runPhase(prodPaths, ins, func(*pathDef) int { return 3 }, 0)
+	<-longDone
 	e4.crossCompareWith(prodPaths, ins, func(in *input, field string) string {
 		return "prod:" + in.tag + ":cross-transport:" + field
 	})
@@ -399,4 +431,124 @@ func sortedKeys[V any](m map[string]V) (keys []string) {
 	sort.Strings(keys)
 
 	return keys
+}
+
+// prodLongLived keeps ONE connection per transport in use for several
+// multiples of the handle timeout, with pauses between the queries.  All
+// queries of a connection ask the same question (the pipeline has no cache and
+// the upstream is a pure function of the question), so every answer must say
+// what the first one said.
+func (e *env) prodLongLived() {
+	r := e.r
+
+	const (
+		queries = 10
+		pause   = 400 * time.Millisecond
+	)
+
+	paths := []*pathDef{
+		{name: "prod-long-doq", family: famDoQ, prod: true},
+		{name: "prod-long-tcp", family: famStream, prod: true},
+		{name: "prod-long-dot", family: famStream, tls: true, prod: true},
+		{name: "prod-long-doh-h2", family: famDoH, variant: tbench.HTTP2, prod: true},
+	}
+
+	wg := &sync.WaitGroup{}
+	for pi, p := range paths {
+		wg.Add(1)
+		go func(pi int, p *pathDef) {
+			defer wg.Done()
+			defer func() {
+				if v := recover(); v != nil {
+					r.Inconclusive(fmt.Sprintf("harness panic in the long-lived worker %s: %v", p.name, v))
+				}
+			}()
+
+			s, err := e.newSession(p)
+			if err != nil {
+				e.infraFailure(p.name+":session", err)
+
+				return
+			}
+			defer s.finish()
+
+			name := tbench.WireName([]byte(labelUpOK), token("long", pi), []byte("Prod"), []byte("test"))
+			var firstConn any
+			var base *canon
+			start := time.Now()
+			for k := 0; k < queries; k++ {
+				if k > 0 {
+					time.Sleep(pause)
+				}
+
+				idx := 50000 + pi*100 + k
+				spec := &tbench.QuerySpec{ID: permID(idx, e.salt), Flags: tbench.FlagRD, Name: name, QType: dns.TypeA, QClass: dns.ClassINET}
+				in := (&input{family: "prod", idx: idx, wire: spec.Wire(), tag: "long-lived-connection",
+					desc: fmt.Sprintf("query %d on one connection, %s after it was opened", k, time.Since(start).Round(time.Millisecond))}).finish()
+				in.shape = "prod|long-lived|" + fmt.Sprint(k)
+
+				age := time.Since(start)
+				e.evalOne(p, s, in)
+
+				conn := connIdentity(s)
+				if k == 0 {
+					firstConn = conn
+				}
+				if conn != firstConn || conn == nil {
+					// Not the same connection any more; the rest would not
+					// test what it is meant to.
+					r.Bucket("prod_long_lived_reconnected:"+p.name, 1)
+
+					return
+				}
+
+				e.mu.Lock()
+				cn, have := e.canons[idx][p.name]
+				e.mu.Unlock()
+				if !have {
+					continue
+				}
+
+				switch {
+				case base == nil:
+					base = &cn
+				case cn.hdr != base.hdr || cn.sections != base.sections:
+					e.prodProblem(in, p.name, "answer-changed-on-long-lived-connection",
+						fmt.Sprintf("query %d on a connection that is %s old is answered %q %s, the first query on it was answered %q %s",
+							k, age.Round(time.Millisecond), cn.hdr, cn.sections, base.hdr, base.sections), tbench.Result{})
+				}
+
+				if age > prodCtxTimeout {
+					r.Bucket("prod_long_lived_queries_after_handle_timeout:"+p.name, 1)
+				}
+			}
+		}(pi, p)
+	}
+
+	wg.Wait()
+
+	for _, p := range paths {
+		r.Require("prod_long_lived_queries_after_handle_timeout:"+p.name, 4)
+	}
+}
+
+// connIdentity returns something that changes when the session reconnects.
+func connIdentity(s session) any {
+	switch s := s.(type) {
+	case *streamSession:
+		if s.c == nil {
+			return nil
+		}
+
+		return s.c
+	case *doqSession:
+		if s.c == nil {
+			return nil
+		}
+
+		return s.c
+	default:
+		// The HTTP/2 client keeps its one connection.
+		return "shared"
+	}
 }
